@@ -110,3 +110,42 @@ neu("rename-handler-params", [
     (AV, ("all", "payload"), "stream"), (AV, ("all", "server_state"), "state"), (AV, ("all", "req"), "request"),
     (AS, ("all", "payload"), "stream"),
 ], "rename handler parameters")
+
+neu("tuple-params", [
+    (SQL, "                params![&StoredUuid(self.client_id), &StoredUuid(latest_version_id)],", "                (&StoredUuid(self.client_id), &StoredUuid(latest_version_id)),"),
+    (SQL, "                params![StoredUuid(version_id), StoredUuid(self.client_id),],", "                (StoredUuid(version_id), StoredUuid(self.client_id)),"),
+], "rusqlite tuple parameters instead of params![]")
+neu("let-else-header", [
+    (API, "        if let Some(client_id_hdr) = req.headers().get(CLIENT_ID_HEADER) {\n            let client_id = client_id_hdr.to_str().map_err(|_| badrequest())?;\n            let client_id = ClientId::parse_str(client_id).map_err(|_| badrequest())?;\n            if let Some(allow_list) = &self.client_id_allowlist {\n                if !allow_list.contains(&client_id) {\n                    return Err(error::ErrorForbidden(\"unknown x-client-id\"));\n                }\n            }\n            Ok(client_id)\n        } else {\n            Err(badrequest())\n        }",
+     "        let Some(client_id_hdr) = req.headers().get(CLIENT_ID_HEADER) else {\n            return Err(badrequest());\n        };\n        let client_id = client_id_hdr.to_str().map_err(|_| badrequest())?;\n        let client_id = ClientId::parse_str(client_id).map_err(|_| badrequest())?;\n        match &self.client_id_allowlist {\n            Some(allow_list) if !allow_list.contains(&client_id) => Err(error::ErrorForbidden(\"unknown x-client-id\")),\n            _ => Ok(client_id),\n        }"),
+], "let-else and a match with a guard in client_id_header")
+neu("config-chain-split", [
+    (LIB, "        cfg.service(\n            web::scope(\"\")\n                .app_data(web::Data::new(self.server_state.clone()))\n                .wrap(\n                    middleware::DefaultHeaders::new().add((\"Cache-Control\", \"no-store, max-age=0\")),\n                )\n                .service(index)\n                .service(api_scope()),\n        );",
+     "        let no_store = middleware::DefaultHeaders::new().add((\"Cache-Control\", \"no-store, max-age=0\"));\n        let scope = web::scope(\"\").app_data(web::Data::new(self.server_state.clone()));\n        let scope = scope.wrap(no_store);\n        let scope = scope.service(index).service(api_scope());\n        cfg.service(scope);"),
+], "WebServer::config builder chain split into let-bindings")
+neu("sql-benign-variants", [
+    (SQL, "\"SELECT snapshot, snapshot_version_id FROM clients WHERE client_id = ?\"", "\"SELECT snapshot, snapshot_version_id FROM clients WHERE client_id = ? LIMIT 1\""),
+    (SQL, "               snapshot_version_id = ?,\n               snapshot_timestamp = ?,\n               versions_since_snapshot = ?,\n               snapshot = ?\n             WHERE client_id = ?\",\n                params![\n                    &StoredUuid(snapshot.version_id),\n                    snapshot.timestamp.timestamp(),\n                    snapshot.versions_since,\n                    data,\n                    &StoredUuid(self.client_id),\n                ],",
+     "               snapshot = ?,\n               versions_since_snapshot = ?,\n               snapshot_timestamp = ?,\n               snapshot_version_id = ?\n             WHERE client_id = ?\",\n                params![\n                    data,\n                    snapshot.versions_since,\n                    snapshot.timestamp.timestamp(),\n                    &StoredUuid(snapshot.version_id),\n                    &StoredUuid(self.client_id),\n                ],"),
+], "LIMIT 1 added; SET columns (and their parameters) reordered")
+neu("urgency-before-commit", [
+    (SRV, "        txn.add_version(version_id, parent_version_id, history_segment)?;\n        txn.commit()?;\n\n        // calculate the urgency\n        let time_urgency = match client.snapshot {\n            None => SnapshotUrgency::High,\n            Some(Snapshot { timestamp, .. }) => {\n                SnapshotUrgency::for_days(&self.config, (Utc::now() - timestamp).num_days())\n            }\n        };\n",
+     "        // calculate the urgency\n        let time_urgency = match client.snapshot {\n            None => SnapshotUrgency::High,\n            Some(Snapshot { timestamp, .. }) => {\n                SnapshotUrgency::for_days(&self.config, (Utc::now() - timestamp).num_days())\n            }\n        };\n\n        txn.add_version(version_id, parent_version_id, history_segment)?;\n        txn.commit()?;\n"),
+], "time urgency computed (from the already-read record) before the write instead of after")
+neu("fresh-id-early", [
+    (SRV, "        let mut txn = self.storage.txn(client_id)?;\n        let client = txn.get_client()?.ok_or(ServerError::NoSuchClient)?;\n\n        // check if this version is acceptable, under the protection of the transaction",
+     "        // invent a version ID\n        let version_id = Uuid::new_v4();\n        let mut txn = self.storage.txn(client_id)?;\n        let client = txn.get_client()?.ok_or(ServerError::NoSuchClient)?;\n\n        // check if this version is acceptable, under the protection of the transaction"),
+    (SRV, "        // invent a version ID\n        let version_id = Uuid::new_v4();\n        log::debug!(\"add_version request accepted", "        log::debug!(\"add_version request accepted"),
+], "fresh id generated before the transaction is opened")
+neu("unrelated-flag-and-field", [
+    (BIN, "        .arg(\n            arg!(--\"snapshot-days\" <NUM> \"Target number of days between snapshots\")", "        .arg(arg!(--quiet \"Log less\").env(\"QUIET\").action(ArgAction::SetTrue))\n        .arg(\n            arg!(--\"snapshot-days\" <NUM> \"Target number of days between snapshots\")"),
+], "an unrelated command-line flag")
+neu("checks-reordered", [
+    (GCV, "    let parent_version_id = path.into_inner();\n    let client_id = server_state.client_id_header(&req)?;", "    let client_id = server_state.client_id_header(&req)?;\n    let parent_version_id = path.into_inner();"),
+    (AS, "    // check content-type\n    if req.content_type() != SNAPSHOT_CONTENT_TYPE {\n        return Err(error::ErrorBadRequest(\"Bad content-type\"));\n    }\n\n    let client_id = server_state.client_id_header(&req)?;\n", "    let client_id = server_state.client_id_header(&req)?;\n\n    // check content-type\n    if req.content_type() != SNAPSHOT_CONTENT_TYPE {\n        return Err(error::ErrorBadRequest(\"Bad content-type\"));\n    }\n"),
+], "client-id extraction moved before the other pre-checks")
+neu("handler-loop-respelled", [
+    (AV, "    loop {\n        return match server_state\n            .server\n            .add_version(client_id, parent_version_id, body.to_vec())\n        {",
+     "    let mut created = false;\n    loop {\n        let outcome = server_state\n            .server\n            .add_version(client_id, parent_version_id, body.to_vec());\n        log::trace!(\"add_version attempt (client created: {created})\");\n        return match outcome {"),
+    (AV, "                    txn.commit().map_err(failure_to_ise)?;\n                }\n                continue;", "                    txn.commit().map_err(failure_to_ise)?;\n                    created = true;\n                }\n                continue;"),
+], "operation result bound to a local before the match; an extra local flag")
